@@ -120,8 +120,14 @@ class PydanticGrammar(BaseGrammar):
         self.__model_needs_rebuild = True
 
     def _copy(self, grammar: Self) -> None:  # noqa:D102
-        grammar.__model = copy(self.__model)
-        grammar.__model_needs_rebuild = self.__model_needs_rebuild
+        if hasattr(self.__model, "__internal__"):
+            # Copying a class returns the same class: the model created by the copy in
+            # _clear gets the fields such that the grammars do not share their elements.
+            grammar.__model.model_fields = dict(self.__model.model_fields)
+            grammar.__model_needs_rebuild = True
+        else:
+            grammar.__model = copy(self.__model)
+            grammar.__model_needs_rebuild = self.__model_needs_rebuild
 
     def _rename_element(self, current_name: str, new_name: str) -> None:  # noqa:D102
         fields = self.__model.model_fields
